@@ -1,18 +1,347 @@
 package main
 
 import (
+	"go/types"
+	"sort"
+	"strings"
+
 	"golang.org/x/tools/go/ssa"
 )
 
-// ModSets holds inferred write effects per function (filled by modsetAnalysis).
+// ModSets holds inferred write effects per function: the set of heap components (struct fields of a type,
+// map contents of a map type, slice elements of an element type, package variables) that the function or
+// anything it may call can write. Computed once per run from the SSA of the working tree (DESIGN 3.2, frames).
+//
+// Resolution of calls: static callees directly; interface calls by class hierarchy over the module's types;
+// calls of function values by signature over every function whose value is taken somewhere in the module.
+// Calls into packages outside the module write no module state (assumption 4 of DESIGN section 10), except
+// that github.com/looplab/fsm.(*FSM).Event runs the module's callbacks and is resolved to them.
 type ModSets struct {
-	w   *World
-	eff map[*ssa.Function]*effect
+	w      *World
+	namer  *VC
+	eff    map[*ssa.Function]*effect
+	direct map[*ssa.Function]*effect
+	calls  map[*ssa.Function][]*ssa.Function
+	impls  map[string][]*ssa.Function // iface method id -> implementations
+	fvals  map[string][]*ssa.Function // signature string -> functions used as values
+	fsmCBs []*ssa.Function
 }
 
 type effect struct {
 	comps map[string]string // component -> sort
 	all   bool
+}
+
+func newEffect() *effect { return &effect{comps: map[string]string{}} }
+
+func (e *effect) add(o *effect) bool {
+	ch := false
+	if o.all && !e.all {
+		e.all = true
+		ch = true
+	}
+	for c, s := range o.comps {
+		if _, ok := e.comps[c]; !ok {
+			e.comps[c] = s
+			ch = true
+		}
+	}
+	return ch
+}
+
+func inModule(fn *ssa.Function) bool {
+	if fn == nil {
+		return false
+	}
+	p := fn.Pkg
+	if p == nil && fn.Parent() != nil {
+		p = fn.Parent().Pkg
+	}
+	if p == nil {
+		if o := fn.Object(); o != nil && o.Pkg() != nil {
+			return strings.HasPrefix(o.Pkg().Path(), modulePath)
+		}
+		return false
+	}
+	return strings.HasPrefix(p.Pkg.Path(), modulePath)
+}
+
+func modsetAnalysis(w *World) *ModSets {
+	m := &ModSets{w: w, eff: map[*ssa.Function]*effect{}, direct: map[*ssa.Function]*effect{}, calls: map[*ssa.Function][]*ssa.Function{},
+		impls: map[string][]*ssa.Function{}, fvals: map[string][]*ssa.Function{}}
+	m.namer = newVC(w, &Contracts{Funcs: map[string]*FuncSpec{}, Specs: map[string]*SpecFunc{}, TypeInvs: map[string]*TypeInv{}, Chains: map[string]string{}}, nil, nil,
+		&FuncSpec{Modes: map[string]string{}, Loops: map[int]*LoopSpec{}})
+	var fns []*ssa.Function
+	seen := map[*ssa.Function]bool{}
+	var addFn func(f *ssa.Function)
+	addFn = func(f *ssa.Function) {
+		if f == nil || seen[f] || len(f.Blocks) == 0 {
+			return
+		}
+		seen[f] = true
+		fns = append(fns, f)
+		for _, a := range f.AnonFuncs {
+			addFn(a)
+		}
+	}
+	for path, sp := range w.SSAPkgs {
+		if !strings.HasPrefix(path, modulePath) {
+			continue
+		}
+		for _, mem := range sp.Members {
+			switch x := mem.(type) {
+			case *ssa.Function:
+				addFn(x)
+			case *ssa.Type:
+				for _, T := range []types.Type{x.Type(), types.NewPointer(x.Type())} {
+					ms := w.Prog.MethodSets.MethodSet(T)
+					for i := 0; i < ms.Len(); i++ {
+						addFn(w.Prog.MethodValue(ms.At(i)))
+					}
+				}
+			}
+		}
+	}
+	sort.Slice(fns, func(i, j int) bool { return fns[i].String() < fns[j].String() })
+	// functions used as values, by signature
+	for _, f := range fns {
+		for _, b := range f.Blocks {
+			for _, ins := range b.Instrs {
+				var ops []*ssa.Value
+				ops = ins.Operands(ops)
+				for k, op := range ops {
+					if op == nil || *op == nil {
+						continue
+					}
+					var tgt *ssa.Function
+					switch v := (*op).(type) {
+					case *ssa.Function:
+						tgt = v
+					case *ssa.MakeClosure:
+						tgt, _ = v.Fn.(*ssa.Function)
+					}
+					if tgt == nil {
+						continue
+					}
+					// operand 0 of a call instruction in call position is not a value use
+					if c, ok := ins.(ssa.CallInstruction); ok && k == 0 && c.Common().Value == *op {
+						continue
+					}
+					sig := tgt.Signature
+					key := types.NewSignatureType(nil, nil, nil, sig.Params(), sig.Results(), sig.Variadic()).String()
+					m.fvals[key] = append(m.fvals[key], tgt)
+					if call, ok := ins.(ssa.CallInstruction); ok {
+						_ = call
+					}
+				}
+			}
+		}
+	}
+	// FSM callbacks: closures created in functions named callbacks / eventDesc users
+	for _, f := range fns {
+		if f.Parent() != nil && (f.Parent().Name() == "callbacks" || strings.Contains(f.Parent().Name(), "allbacks")) {
+			m.fsmCBs = append(m.fsmCBs, f)
+		}
+	}
+	for _, f := range fns {
+		d := newEffect()
+		for _, b := range f.Blocks {
+			for _, ins := range b.Instrs {
+				m.instrEffect(f, ins, d)
+			}
+		}
+		m.direct[f] = d
+		e := newEffect()
+		e.add(d)
+		m.eff[f] = e
+	}
+	// fixpoint
+	for changed := true; changed; {
+		changed = false
+		for _, f := range fns {
+			e := m.eff[f]
+			for _, c := range m.calls[f] {
+				if ce := m.eff[c]; ce != nil {
+					if e.add(ce) {
+						changed = true
+					}
+				}
+			}
+		}
+	}
+	return m
+}
+
+func (m *ModSets) instrEffect(f *ssa.Function, ins ssa.Instruction, d *effect) {
+	vc := m.namer
+	ms := newModSet()
+	switch x := ins.(type) {
+	case *ssa.Store:
+		m.addrEffect(x.Addr, ms, d)
+	case *ssa.MapUpdate:
+		vc.msMap(ms, x.Map.Type().Underlying().(*types.Map))
+	case *ssa.Call:
+		m.callEffect(f, &x.Call, ms, d)
+	case *ssa.Defer:
+		m.callEffect(f, &x.Call, ms, d)
+	case *ssa.Go:
+		m.callEffect(f, &x.Call, ms, d)
+	case *ssa.Send:
+		// channel traffic is not heap state of the model
+	}
+	for c, s := range ms.comps {
+		d.comps[c] = s
+	}
+	if ms.all {
+		d.all = true
+	}
+}
+
+func (m *ModSets) addrEffect(a ssa.Value, ms *modSet, d *effect) {
+	vc := m.namer
+	switch x := a.(type) {
+	case *ssa.Alloc:
+		if x.Heap {
+			// escaping local cell (captured variable): not part of the modelled heap components
+		}
+	case *ssa.FieldAddr:
+		vc.msField(ms, x.X.Type(), x.Field)
+	case *ssa.IndexAddr:
+		var et types.Type
+		switch u := x.X.Type().Underlying().(type) {
+		case *types.Slice:
+			et = u.Elem()
+		case *types.Pointer:
+			if arr, ok := u.Elem().Underlying().(*types.Array); ok {
+				et = arr.Elem()
+			}
+		}
+		if et != nil {
+			if isStructLike(et) {
+				vc.structMods(et, ms)
+			} else {
+				vc.msElem(ms, et)
+			}
+		}
+	case *ssa.Global:
+		ms.comps["G_"+x.Pkg.Pkg.Name()+"_"+x.Name()] = vc.sortOf(x.Type().(*types.Pointer).Elem())
+	case *ssa.FreeVar:
+		// captured variable of an enclosing function: a local cell of that function
+	default:
+		if p, ok := a.Type().Underlying().(*types.Pointer); ok {
+			if isStructLike(p.Elem()) {
+				vc.structMods(p.Elem(), ms)
+			}
+			// store through a pointer to a scalar / pointer cell (e.g. *p = v for p *int): such cells are
+			// either locals or fields whose address was taken; the latter is refused in functions under
+			// contract, and not part of the component model.
+		}
+	}
+}
+
+func (m *ModSets) callEffect(f *ssa.Function, c *ssa.CallCommon, ms *modSet, d *effect) {
+	vc := m.namer
+	if b, ok := c.Value.(*ssa.Builtin); ok {
+		switch b.Name() {
+		case "append", "copy":
+			if sl, ok := c.Args[0].Type().Underlying().(*types.Slice); ok {
+				if b.Name() == "copy" {
+					vc.msElem(ms, sl.Elem())
+				}
+			}
+		case "delete", "clear":
+			if mt, ok := c.Args[0].Type().Underlying().(*types.Map); ok {
+				vc.msMap(ms, mt)
+			}
+		}
+		return
+	}
+	for _, callee := range m.resolve(c) {
+		m.calls[f] = append(m.calls[f], callee)
+	}
+}
+
+// resolve returns the module functions a call may reach.
+func (m *ModSets) resolve(c *ssa.CallCommon) []*ssa.Function {
+	if c.IsInvoke() {
+		return m.implementations(c)
+	}
+	if callee := c.StaticCallee(); callee != nil {
+		if inModule(callee) {
+			return []*ssa.Function{callee}
+		}
+		if strings.Contains(callee.String(), "looplab/fsm") && strings.HasSuffix(callee.Name(), "Event") {
+			return m.fsmCBs
+		}
+		// external function taking module closures as arguments: the closures may run
+		var out []*ssa.Function
+		for _, a := range c.Args {
+			switch v := a.(type) {
+			case *ssa.MakeClosure:
+				if fn, ok := v.Fn.(*ssa.Function); ok {
+					out = append(out, fn)
+				}
+			case *ssa.Function:
+				if inModule(v) {
+					out = append(out, v)
+				}
+			}
+		}
+		return out
+	}
+	// function value
+	switch v := c.Value.(type) {
+	case *ssa.MakeClosure:
+		if fn, ok := v.Fn.(*ssa.Function); ok {
+			return []*ssa.Function{fn}
+		}
+	}
+	sig, ok := c.Value.Type().Underlying().(*types.Signature)
+	if !ok {
+		return nil
+	}
+	key := types.NewSignatureType(nil, nil, nil, sig.Params(), sig.Results(), sig.Variadic()).String()
+	return m.fvals[key]
+}
+
+func (m *ModSets) implementations(c *ssa.CallCommon) []*ssa.Function {
+	iface, ok := c.Value.Type().Underlying().(*types.Interface)
+	if !ok {
+		return nil
+	}
+	key := c.Value.Type().String() + "." + c.Method.Name()
+	if r, ok := m.impls[key]; ok {
+		return r
+	}
+	var out []*ssa.Function
+	for path, sp := range m.w.SSAPkgs {
+		if !strings.HasPrefix(path, modulePath) {
+			continue
+		}
+		for _, mem := range sp.Members {
+			tn, ok := mem.(*ssa.Type)
+			if !ok {
+				continue
+			}
+			if _, isIface := tn.Type().Underlying().(*types.Interface); isIface {
+				continue
+			}
+			for _, T := range []types.Type{tn.Type(), types.NewPointer(tn.Type())} {
+				if !types.Implements(T, iface) {
+					continue
+				}
+				sel := m.w.Prog.MethodSets.MethodSet(T).Lookup(c.Method.Pkg(), c.Method.Name())
+				if sel == nil {
+					continue
+				}
+				if fn := m.w.Prog.MethodValue(sel); fn != nil {
+					out = append(out, fn)
+				}
+			}
+		}
+	}
+	m.impls[key] = out
+	return out
 }
 
 func (m *ModSets) effectOf(c *ssa.CallCommon, caller *ssa.Function) *effect {
@@ -22,6 +351,52 @@ func (m *ModSets) effectOf(c *ssa.CallCommon, caller *ssa.Function) *effect {
 	return m.effectOfCall(c, caller)
 }
 
-func modsetAnalysis(w *World) *ModSets { return nil }
+func (m *ModSets) effectOfCall(c *ssa.CallCommon, caller *ssa.Function) *effect {
+	if _, ok := c.Value.(*ssa.Builtin); ok {
+		return nil
+	}
+	e := newEffect()
+	for _, callee := range m.resolve(c) {
+		ce := m.eff[callee]
+		if ce == nil {
+			// synthetic wrapper or function without body in the module: look through wrappers
+			if callee.Synthetic != "" && len(callee.Blocks) > 0 {
+				ce = m.effectOfFunc(callee)
+			}
+		}
+		if ce != nil {
+			e.add(ce)
+		}
+	}
+	return e
+}
 
-func (m *ModSets) effectOfCall(c *ssa.CallCommon, caller *ssa.Function) *effect { return nil }
+// effectOfFunc computes the effect of a function that was not in the initial set (wrappers, instantiations).
+func (m *ModSets) effectOfFunc(f *ssa.Function) *effect {
+	if e, ok := m.eff[f]; ok {
+		return e
+	}
+	e := newEffect()
+	m.eff[f] = e
+	for _, b := range f.Blocks {
+		for _, ins := range b.Instrs {
+			m.instrEffect(f, ins, e)
+		}
+	}
+	for _, c := range m.calls[f] {
+		e.add(m.effectOfFunc(c))
+	}
+	return e
+}
+
+// writers lists, for one heap component, the module functions that write it directly.
+func (m *ModSets) writers(comp string) []string {
+	var out []string
+	for f, d := range m.direct {
+		if _, ok := d.comps[comp]; ok {
+			out = append(out, funcKey(f))
+		}
+	}
+	sort.Strings(out)
+	return out
+}
